@@ -526,6 +526,44 @@ def r11j(ctx):
         raise AnalysisError("R11j: the indenter no longer derives the tag name from `.tag`")
 
 
+def r11l(ctx):
+    """A flat XML save takes every child of every part.
+
+    `_xml_content` builds the single-file form by moving the top-level children of meta, settings, styles and content under one root.
+    Every child is content: styles.xml and content.xml each have their own `office:font-face-decls` and `office:automatic-styles`, and what
+    one of them declares the other need not.  A filter in that loop ("the root already has one") drops declarations that only one part
+    carries — the flat file then differs from what the other packagings write for the same document.  Rule: in `_xml_content`, the loop that
+    appends the children of a part to the root appends each of them: the append is under no condition and the loop has no continue / break.
+    """
+    repo = ctx.repo
+    ctx.rule("R11l", "the flat-XML writer moves every top-level child of every part under the root (no filter in the loop)", floor=1)
+    f = repo.func("Container._xml_content")
+    n = 0
+    for lp in [x for x in walk_no_nested(f.node) if isinstance(x, ast.For) and isinstance(x.target, ast.Name)]:
+        apps = [c for c in ast.walk(lp) if isinstance(c, ast.Call) and call_name(c) == "append" and c.args and isinstance(c.args[0], ast.Name) and c.args[0].id == lp.target.id]
+        inner = [x for x in ast.walk(lp) if isinstance(x, ast.For) and x is not lp]
+        apps = [c for c in apps if not any(c in list(ast.walk(i)) for i in inner)]
+        if not apps:
+            continue
+        n += 1
+        bad = None
+        for c in apps:
+            gs = structural_guards(c, stop=lp)
+            if gs:
+                bad = (c, gs[0][0])
+        jumps = [j for j in ast.walk(lp) if isinstance(j, (ast.Continue, ast.Break)) and not any(j in list(ast.walk(i)) for i in inner)]
+        if jumps and bad is None:
+            gs = structural_guards(jumps[0], stop=lp)
+            bad = (jumps[0], gs[0][0] if gs else jumps[0])
+        ctx.instance("R11l", f"{f.file}:{f.ident}", f"loop over `{norm(lp.iter, 20)}`: every child appended", ok=bad is None, nontrivial=True, line=lp.lineno)
+        if bad:
+            ctx.report("R11l", f, bad[0], f"child filter {norm(bad[1], 40)}",
+                       f"{f.ident} leaves children of a part out of the flat document on the condition `{norm(bad[1], 50)}`: what only that part declares (a font face, an automatic style) "
+                       f"is missing from the file, while a zip or folder save of the same document writes it")
+    if n < 1:
+        raise AnalysisError("R11l: the child-moving loop of _xml_content was not found")
+
+
 def run(ctx):
     r11a(ctx)
     r11b(ctx)
@@ -537,6 +575,7 @@ def run(ctx):
     r11i(ctx)
     r11j(ctx)
     r11k(ctx)
+    r11l(ctx)
     # two saves write the same content only if saving never re-reads a part that is already in memory (rule shared with C03)
     from .c03 import r03a
     r03a(ctx)
@@ -551,6 +590,8 @@ _CT = "src/odfdo/container.py"
 _XP = "src/odfdo/xmlpart.py"
 _DOC = "src/odfdo/document.py"
 SEEDS = [
+    Seed("the flat-XML writer keeps one office:font-face-decls", "fault", _CT,
+         "            for child in xpart:\n                root.append(child)", "            for child in xpart:\n                if child.tag.endswith(\"font-face-decls\") and len(root) > 4:\n                    continue\n                root.append(child)", "R11l"),
     Seed("XmlPart drops its tree when the container holds other bytes", "fault", _XP,
          "        if self.__tree is None:\n            part = self.container.get_part(self.part_name)",
          "        if self.__tree is not None and self.__root is None and self.container.get_part(self.part_name) is not getattr(self, \"_src\", None):\n            self.__tree = None\n        if self.__tree is None:\n            part = self.container.get_part(self.part_name)\n            self._src = part", "R11k"),
